@@ -212,4 +212,20 @@ example : ErrAt [91, 49, 32, 120, 93, 0] 1 [120, 93, 0] :=
 -- `[1 2]`: the token `2` is complete but not `,` / `]`: error immediately behind it (column 5)
 example : parse [91, 49, 32, 50, 93, 0] = .err 1 5 := by rfl
 
+/-- inside a string literal (second case of `tokenizer_error_cursor`): the string loop stops with an error exactly
+    * AT the NUL that ends the text inside the literal (`StrStop.eof`), or
+    * AT the first byte that is not a hexadecimal digit in a `\u` escape with fewer than four of them (`badHex`; also in the
+      second escape of a surrogate pair), or
+    * immediately BEHIND a high surrogate escape `\uD800`..`\uDBFF` that is not followed by `\u` + a low surrogate
+      (`loneHigh`: the `pos.pos -= 6` and the two "Expected UTF-8 surrogate pair" returns);
+    `pre` is the part of the literal in front of the error cursor.  For every budget, line, accumulator and cursor. -/
+theorem string_error_cursor (f line : Nat) (acc r : List Byte) (l : Nat) (p : List Byte)
+    (h : readStr f line acc r = .fail l p) : ∃ pre, r = pre ++ p ∧ StrStop pre p :=
+  readStr_stop f line acc r l p h
+
+example : readStr 9 1 [] [97, 92, 117, 49, 120, 34, 0] = .fail 1 [120, 34, 0] := by rfl
+example : StrStop ([97] ++ [92, 117] ++ [49]) [120, 34, 0] :=
+  .badHex [97] [49] _ 120 (by decide) (by decide) rfl (by decide)
+example : readStr 9 1 [] [92, 117, 100, 56, 48, 48, 120, 34, 0] = .fail 1 [120, 34, 0] := by rfl
+
 end Nstd.Json
